@@ -153,7 +153,15 @@ impl Log {
 
     /// Hash of the complete event stream (determinism / replay identity).
     pub fn hash(&self) -> u64 {
+        self.hash_masking(0)
+    }
+
+    /// Like `hash`, but the content of the first `mask_until` bytes written on
+    /// connection 0 is ignored (only the write sizes count). Used where those
+    /// bytes legitimately depend on per-process hash-map order.
+    pub fn hash_masking(&self, mask_until: usize) -> u64 {
         let mut h = Hasher64::default();
+        let mut woff = 0usize;
         for e in &self.entries {
             h.u64(e.conn as u64);
             h.u64(e.t_ms);
@@ -170,7 +178,14 @@ impl Log {
                 Ev::ReadErr => h.u8(6),
                 Ev::Write(b) => {
                     h.u8(7);
-                    h.bytes(b)
+                    if e.conn == 0 && woff < mask_until {
+                        h.u64(b.len() as u64);
+                    } else {
+                        h.bytes(b);
+                    }
+                    if e.conn == 0 {
+                        woff += b.len();
+                    }
                 }
                 Ev::WriteSpurious => h.u8(8),
                 Ev::WriteErr => h.u8(9),
